@@ -141,6 +141,33 @@ def check(rep, tier, seed):
         return j, env, r
 
     results = R.pmap(run_job, jobs)
+    # "a collection forced before the k-th allocation for every k": dense windows.  The un-injected run below counts the
+    # program's allocations (the hook counts whenever a mode is set; every:10^9 never fires); windows of consecutive
+    # allocations, each with a forced collection, are then placed in the program's own part of the run.
+    wtests = [t for t in tests if t[0] in ("lib_srfi_1_test", "lib_srfi_69_test", "lib_srfi_95_test", "lib_chibi_json-test",
+                                           "lib_srfi_151_test", "lib_chibi_string-test", "lib_srfi_18_test", "lib_srfi_38_test")]
+    if tier != "quick":
+        wtests = tests
+
+    def count_allocs(t):
+        name, args = t
+        r = R.run(b, args, env_extra={"CHIBI_VERIF_GC": "every:1000000000:1"}, timeout=600)
+        n = 0
+        for dct in r.log_kv("GCINJ-SUMMARY"):
+            n = max(n, dct.get("allocs", 0))
+        return name, n
+
+    counts = dict(R.pmap(count_allocs, wtests))
+    wjobs = []
+    for name, args in wtests:
+        n = counts.get(name, 0)
+        if n < 1000:
+            continue
+        for k in range(2 if tier == "quick" else 8):
+            a = rng.randrange(int(n * 0.55), n - 300)
+            wjobs.append((name, args, "window:%d:%d" % (a, a + (150 if tier == "quick" else 400)), "hooks", None))
+    results += R.pmap(run_job, wjobs)
+    jobs = jobs + wjobs
     ref = {}
     for (name, args, sched, variant, heap), env, r in results:
         if sched is None and heap is None:
